@@ -1,6 +1,270 @@
-import Summer.Model.Run
--- placeholder until the proof worker delivers (replaced by the real file)
+import Summer.Proofs.FOI
+/-
+C05 — the force of infection follows the mixing, strain and infectiousness definition.
+-/
 namespace Summer.Props.C05
-theorem placeholder : True := trivial
+open Summer Summer.Run Summer.Build Summer.Spec Summer.Proofs.FOI
+
+/-! ### 5. Kronecker products (`finalize_parameters`: `kron` of the mixing matrices, left to right) -/
+
+/-- Shape and entries of one Kronecker product: for `A : p × p'` and `B : q × q'`, `kron A B` is
+`pq × p'q'` and its entry at `(i·q + k, j·q' + l)` is `A[i][j] · B[k][l]`. -/
+theorem kron_entry {α : Type} [Mul α] [Zero α] (A B : Matrix α) (p p' q q' : Nat)
+    (hA : IsShape A p p') (hB : IsShape B q q') :
+    IsShape (kron A B) (p * q) (p' * q') ∧
+    ∀ i j k l, i < p → j < p' → k < q → l < q' →
+      mget (kron A B) (i * q + k) (j * q' + l) = mget A i j * mget B k l :=
+  ⟨isShape_kron A B p p' q q' hA hB, fun i j k l hi hj hk hl =>
+    mget_kron_shape A B p p' q q' hA hB i k j l hi hk hj hl⟩
+
+/-- The left fold `rest.foldl kron m0` of `mixingMatrix`: with `ds` listing, for every further
+matrix, the matrix together with a row digit and a column digit, the product is square of size
+`n0 · Π sizes`, and its entry at the mixed-radix (row-major) indices of the digits is the
+left-to-right product of the individual entries. -/
+theorem kron_fold_entry {α : Type} [Mul α] [Zero α] (m0 : Matrix α) (n0 : Nat)
+    (h0 : IsShape m0 n0 n0) (i0 j0 : Nat) (hi0 : i0 < n0) (hj0 : j0 < n0)
+    (ds : List (Matrix α × Nat × Nat))
+    (hds : ∀ d ∈ ds, IsShape d.1 d.1.length d.1.length ∧ d.2.1 < d.1.length ∧ d.2.2 < d.1.length) :
+    IsShape ((ds.map (·.1)).foldl kron m0) (ds.foldl (fun n d => n * d.1.length) n0)
+        (ds.foldl (fun n d => n * d.1.length) n0) ∧
+    mixIdx i0 (ds.map (fun d => (d.1.length, d.2.1))) < ds.foldl (fun n d => n * d.1.length) n0 ∧
+    mixIdx j0 (ds.map (fun d => (d.1.length, d.2.2))) < ds.foldl (fun n d => n * d.1.length) n0 ∧
+    mget ((ds.map (·.1)).foldl kron m0) (mixIdx i0 (ds.map (fun d => (d.1.length, d.2.1))))
+        (mixIdx j0 (ds.map (fun d => (d.1.length, d.2.2))))
+      = ds.foldl (fun acc d => acc * mget d.1 d.2.1 d.2.2) (mget m0 i0 j0) :=
+  kronFold_entry m0 n0 h0 i0 j0 hi0 hj0 ds hds
+
+/-- `mixingMatrix` is that fold of the evaluated matrices, in order of application
+(and `[[1]]` when there is none). -/
+theorem mixingMatrix_eq {α : Type} [Zero α] [One α] [Add α] [Sub α] [Mul α] [Div α] [LT α]
+    [DecidableLT α] (m : Model α) (env : Env α) :
+    (m.mixingMats.mapM (evalMatrix env) = some [] → mixingMatrix m env = some [[1]]) ∧
+    (∀ m0 rest, m.mixingMats.mapM (evalMatrix env) = some (m0 :: rest) →
+      mixingMatrix m env = some (rest.foldl kron m0)) := by
+  constructor
+  · intro h; unfold mixingMatrix; rw [h]; rfl
+  · intro m0 rest h; unfold mixingMatrix; rw [h]; rfl
+
+/-- non-vacuity: a 2×2 and a 3×3 matrix; entry `(1·3+2, 0·3+1)` of the product -/
+example :
+    let A : Matrix Rat := [[1, 2], [3, 4]]
+    let B : Matrix Rat := [[1, 0, 2], [0, 1, 0], [5, 7, 1]]
+    IsShape A 2 2 ∧ IsShape B 3 3 ∧ mget (kron A B) (1 * 3 + 2) (0 * 3 + 1) = 3 * 7 := by
+  refine ⟨⟨rfl, by decide⟩, ⟨rfl, by decide⟩, by decide +kernel⟩
+
+example :
+    let A : Matrix Rat := [[1, 2], [3, 4]]
+    let B : Matrix Rat := [[1, 0, 2], [0, 1, 0], [5, 7, 1]]
+    let C : Matrix Rat := [[2, 3], [5, 7]]
+    (∀ d ∈ [(B, 2, 1), (C, 1, 0)], IsShape d.1 d.1.length d.1.length ∧ d.2.1 < d.1.length ∧ d.2.2 < d.1.length) ∧
+    mget ([B, C].foldl kron A) (mixIdx 1 [(3, 2), (2, 1)]) (mixIdx 0 [(3, 1), (2, 0)]) = 3 * 7 * 5 := by
+  refine ⟨?_, by decide +kernel⟩
+  intro d hd
+  simp only [List.mem_cons, List.not_mem_nil, or_false] at hd
+  rcases hd with rfl | rfl <;> exact ⟨⟨rfl, by decide⟩, by decide, by decide⟩
+
+/-! ### 6. mixing categories are enumerated in the order of the Kronecker indices -/
+
+/-- One `stratify_with` update of the mixing categories
+(`mixingCats.flatMap (fun mc => strata.map (fun st => dictSet mc name st))`): there are `p·q`
+categories and category number `i·q + k` is old category `i` extended with stratum `k` — the same
+row-major index as row/column `i·q + k` of `kron A B` (`kron_entry`). -/
+theorem categories_order (cats : List Strata) (name : String) (strata : List String) :
+    (cats.flatMap (fun mc => strata.map (fun st => dictSet mc name st))).length
+      = cats.length * strata.length ∧
+    ∀ i k, i < cats.length → k < strata.length →
+      (cats.flatMap (fun mc => strata.map (fun st => dictSet mc name st))).getD (i * strata.length + k) []
+        = dictSet (cats.getD i []) name (strata.getD k "") :=
+  ⟨length_catsStep cats name strata, fun i k hi hk => getD_catsStep cats name strata i k hi hk⟩
+
+/-- Successive updates (`ds` lists name, strata and a chosen stratum digit per stratification with
+a mixing matrix): the category at the mixed-radix index of the digits — the very index used in
+`kron_fold_entry` when the `t`-th matrix has one row per stratum — is the initial category extended
+with the chosen strata in order. -/
+theorem categories_order_fold (cats0 : List Strata) (i0 : Nat) (hi0 : i0 < cats0.length)
+    (ds : List (String × List String × Nat)) (hds : ∀ d ∈ ds, d.2.2 < d.2.1.length) :
+    (ds.foldl (fun cats d => cats.flatMap (fun mc => d.2.1.map (fun st => dictSet mc d.1 st))) cats0).length
+      = ds.foldl (fun n d => n * d.2.1.length) cats0.length ∧
+    mixIdx i0 (ds.map (fun d => (d.2.1.length, d.2.2)))
+      < (ds.foldl (fun cats d => cats.flatMap (fun mc => d.2.1.map (fun st => dictSet mc d.1 st))) cats0).length ∧
+    (ds.foldl (fun cats d => cats.flatMap (fun mc => d.2.1.map (fun st => dictSet mc d.1 st))) cats0).getD
+        (mixIdx i0 (ds.map (fun d => (d.2.1.length, d.2.2)))) []
+      = ds.foldl (fun mc d => dictSet mc d.1 (d.2.1.getD d.2.2 "")) (cats0.getD i0 []) :=
+  catsFold_entry cats0 i0 hi0 ds hds
+
+/-- `stratify_with` keeps the category list and the matrix list in lockstep: a stratification with
+a mixing matrix refines every category by its strata (in order) and appends its matrix; one without
+leaves both unchanged. -/
+theorem categories_stratifyWith {α : Type} [One α] [Div α] [NatCast α] (m : Model α) (s : Strat α)
+    (m' : Model α) (h : stratifyWith m s = .ok m') :
+    (s.mixing = none → m'.mixingCats = m.mixingCats ∧ m'.mixingMats = m.mixingMats) ∧
+    (∀ mat, s.mixing = some mat →
+      m'.mixingCats = m.mixingCats.flatMap (fun mc => s.strata.map (fun st => dictSet mc s.name st)) ∧
+      m'.mixingMats = m.mixingMats ++ [mat]) := by
+  have hs := stratifyWith_mixing m s m' h
+  constructor
+  · intro hm; rw [hm] at hs
+    exact ⟨congrArg Prod.fst hs, congrArg Prod.snd hs⟩
+  · intro mat hm; rw [hm] at hs
+    exact ⟨congrArg Prod.fst hs, congrArg Prod.snd hs⟩
+
+/-- For a sequence of `stratify_with` calls the final categories are the fold of the refinements of
+the stratifications that carry a mixing matrix, and the matrix list is the list of their matrices, in
+the same order — so `categories_order_fold` and `kron_fold_entry` index them identically. -/
+theorem categories_stratifyWith_seq {α : Type} [One α] [Div α] [NatCast α] (ss : List (Strat α))
+    (m m' : Model α) (h : ss.foldlM stratifyWith m = .ok m') :
+    m'.mixingCats = (ss.filter (fun s => s.mixing.isSome)).foldl
+        (fun cats s => cats.flatMap (fun mc => s.strata.map (fun st => dictSet mc s.name st))) m.mixingCats ∧
+    m'.mixingMats = m.mixingMats ++ ss.filterMap (fun s => s.mixing) :=
+  stratifyWith_seq ss m m' h
+
+section cat_examples
+def exMix : Strat Rat :=
+  { kind := .plain, name := "loc", strata := ["a", "b"], comps := ["S", "I"], split := [], flowAdj := [],
+    infAdj := [], mixing := some [[.const 1, .const 2], [.const 3, .const 4]] }
+def exM0 : Model Rat :=
+  { t0 := 0, t1 := 1, dt := 1, nTimes := 2, comps := [⟨"S", []⟩, ⟨"I", []⟩], origNames := ["S", "I"],
+    infectious := ["I"], flows := [], strats := [], mixingCats := [[]], mixingMats := [],
+    strains := ["default"], initDist := none, arrayPop := none, actions := [], requests := [],
+    computed := [], whitelist := [], finalized := false }
+
+/-- non-vacuity of `categories_stratifyWith`: a successful `stratify_with` with a mixing matrix -/
+example : ∃ m', stratifyWith exM0 exMix = .ok m' ∧ m'.mixingCats = [[("loc", "a")], [("loc", "b")]] := by
+  refine ⟨_, rfl, ?_⟩
+  decide +kernel
+end cat_examples
+
+/-- non-vacuity: from the initial `[[]]`, `age` (2 strata) then `loc` (3 strata); category `1·3 + 2` -/
+example :
+    let ds : List (String × List String × Nat) := [("age", ["0", "5"], 1), ("loc", ["a", "b", "c"], 2)]
+    (∀ d ∈ ds, d.2.2 < d.2.1.length) ∧
+    (ds.foldl (fun cats d => cats.flatMap (fun mc => d.2.1.map (fun st => dictSet mc d.1 st))) [[]]).getD
+        (mixIdx 0 (ds.map (fun d => (d.2.1.length, d.2.2)))) []
+      = [("age", "5"), ("loc", "c")] ∧
+    mixIdx 0 (ds.map (fun d => (d.2.1.length, d.2.2))) = 1 * 3 + 2 := by
+  decide +kernel
+
+/-! ### 7. force of infection and multipliers -/
+
+/-- `forceOfInfection` for one strain, for all sizes and without any shape hypothesis (out-of-range
+reads are `0` on both sides): for every category row `i` of the mixing matrix,
+density `= Σ_j mix[i][j] · P_j` and frequency `= Σ_j mix[i][j] · (P_j / N_j)` where
+`P_j = Σ_{p ∈ catIndexer[j]} infVals[p] · infness[p]` and `N_j = catPops[j]`. -/
+theorem foi_eq_spec {α : Type} [Field α] (infVals infness : List α) (catIndexer : List (List Nat))
+    (mix : Matrix α) (catPops : List α) :
+    forceOfInfection infVals infness catIndexer mix catPops
+      = (mix.map (fun row => sumRange catIndexer.length
+            (fun j => row.getD j 0 * infPop infVals infness catIndexer j)),
+         mix.map (fun row => sumRange catIndexer.length
+            (fun j => row.getD j 0 * (infPop infVals infness catIndexer j / catPops.getD j 0)))) :=
+  forceOfInfection_eq infVals infness catIndexer mix catPops
+
+/-- the same statement entrywise -/
+theorem foi_entry {α : Type} [Field α] (infVals infness : List α) (catIndexer : List (List Nat))
+    (mix : Matrix α) (catPops : List α) (i : Nat) (hi : i < mix.length) :
+    (forceOfInfection infVals infness catIndexer mix catPops).1.getD i 0
+      = sumRange catIndexer.length (fun j => mget mix i j * infPop infVals infness catIndexer j) ∧
+    (forceOfInfection infVals infness catIndexer mix catPops).2.getD i 0
+      = sumRange catIndexer.length
+          (fun j => mget mix i j * (infPop infVals infness catIndexer j / catPops.getD j 0)) := by
+  rw [foi_eq_spec]
+  exact ⟨getD_map' mix _ i [] 0 hi, getD_map' mix _ i [] 0 hi⟩
+
+/-- `infectiousMultipliers`: the per-strain vectors are the force of infection (frequency or
+density according to the infection process type) of the strain's infectious compartments, and the
+multiplier of the `k`-th infection flow is entry `infCatLookup[k]` of the vector of strain
+`infStrainLookup[k]`. -/
+theorem multipliers {α : Type} [Field α] (b : Backend) (x : List α) (mix : Matrix α)
+    (compInf : List α) :
+    (infectiousMultipliers b x mix compInf).2
+      = (b.strainInfIdx.zip b.strainCatIdx).map (fun sc =>
+          if b.procType == some true then
+            mix.map (foiFrequency (gather x sc.1) (gather compInf sc.1) sc.2
+              (b.catIdx.map (fun row => sumL (gather x row))))
+          else mix.map (foiDensity (gather x sc.1) (gather compInf sc.1) sc.2)) ∧
+    (infectiousMultipliers b x mix compInf).1.length
+      = min b.infStrainLookup.length b.infCatLookup.length ∧
+    ∀ k (hs : k < b.infStrainLookup.length) (hc : k < b.infCatLookup.length),
+      (infectiousMultipliers b x mix compInf).1.getD k 0
+        = (((infectiousMultipliers b x mix compInf).2).getD b.infStrainLookup[k] []).getD b.infCatLookup[k] 0 := by
+  rw [infectiousMultipliers_eq]
+  refine ⟨rfl, by simp, fun k hs hc => ?_⟩
+  exact getD_map_zip _ _ _ k hs hc
+
+/-- non-vacuity / sanity: two categories, three infectious compartments -/
+example :
+    forceOfInfection [(10 : Rat), 20, 30] [1, 1/2, 2] [[0, 1], [2]] [[1, 2], [3, 4]] [100, 200]
+      = ([20 * 1 + 60 * 2, 20 * 3 + 60 * 4], [1 / 5 + 2 * (3 / 10), 3 / 5 + 4 * (3 / 10)]) := by
+  decide +kernel
+
+/-! ### 8. compartment infectiousness -/
+
+/-- `compInfectiousness` (all compartments, duplicate-free compartment list): the computation
+succeeds exactly when the per-compartment specification does, the result has one entry per
+compartment, and the entry of compartment `i` is `infSpec`: starting from `1`, the adjustments that
+target the compartment (same name, and its stratum of the adjusting stratification) are applied in
+the order stratifications × `add_infectiousness_adjustments` calls × strata — `Multiply` scales the
+current value, `Overwrite` replaces it. -/
+theorem infectiousness {α : Type} [Zero α] [One α] [Add α] [Sub α] [Mul α] [Div α] [LT α]
+    [DecidableLT α] (m : Model α) (params : List (String × α)) (hnd : m.comps.Nodup) :
+    (∀ r, compInfectiousness m params = some r → r.length = m.comps.length) ∧
+    ∀ (i : Nat) (hi : i < m.comps.length),
+      (compInfectiousness m params).map (fun r => r.getD i 0) = infSpec m params m.comps[i] := by
+  rw [compInfectiousness_eq]
+  refine ⟨fun r h => ?_, fun i hi => ?_⟩
+  · rw [mfold_len m params _ _ r h]; simp
+  · have := (mfold_corr m hnd params i hi (infAdjList m) (List.replicate m.comps.length 1) (by simp)).1
+    rw [this]
+    have h1 : (List.replicate m.comps.length (1 : α)).getD i 0 = 1 := by
+      simp [List.getD_eq_getElem?_getD, hi]
+    rw [h1]
+    rfl
+
+/-- `infectiousness` holds verbatim over every ordered field -/
+example {α : Type} [Field α] [LinearOrder α] [IsStrictOrderedRing α] (m : Model α)
+    (params : List (String × α)) (hnd : m.comps.Nodup) (i : Nat) (hi : i < m.comps.length) :
+    (compInfectiousness m params).map (fun r => r.getD i 0) = infSpec m params m.comps[i] :=
+  (infectiousness m params hnd).2 i hi
+
+section inf_examples
+def exAge : Strat Rat :=
+  { kind := .age, name := "age", strata := ["0", "5"], comps := ["S", "I"], split := [], flowAdj := [],
+    infAdj := [("I", [("0", some (.mul (.const 2))), ("5", some (.ovr (.param "k")))])], mixing := none }
+def exLoc : Strat Rat :=
+  { kind := .plain, name := "loc", strata := ["a", "b"], comps := ["I"], split := [], flowAdj := [],
+    infAdj := [("I", [("a", some (.mul (.const 3))), ("b", none)])], mixing := none }
+def exModel (comps : List Comp) : Model Rat :=
+  { t0 := 0, t1 := 1, dt := 1, nTimes := 2, comps := comps, origNames := ["S", "I"],
+    infectious := ["I"], flows := [], strats := [exAge, exLoc], mixingCats := [[]], mixingMats := [],
+    strains := ["default"], initDist := none, arrayPop := none, actions := [], requests := [],
+    computed := [], whitelist := [], finalized := false }
+def exComps : List Comp :=
+  [⟨"S", [("age", "0")]⟩, ⟨"S", [("age", "5")]⟩,
+   ⟨"I", [("age", "0"), ("loc", "a")]⟩, ⟨"I", [("age", "0"), ("loc", "b")]⟩,
+   ⟨"I", [("age", "5"), ("loc", "a")]⟩, ⟨"I", [("age", "5"), ("loc", "b")]⟩]
+
+/-- non-vacuity of `infectiousness` -/
+example : (exModel exComps).comps.Nodup := by decide
+
+#eval compInfectiousness (exModel exComps) [("k", 7)]                  -- some [1, 1, 6, 2, 21, 7]
+#eval exComps.map (infSpec (exModel exComps) [("k", (7 : Rat))])       -- the same, per compartment
+#eval compInfectiousness (exModel exComps) ([] : List (String × Rat))  -- none (parameter `k` missing)
+
+/-- `Nodup` is necessary: with a repeated compartment the scatter finds the first copy twice -/
+def exDup : List Comp := [⟨"I", [("age", "0"), ("loc", "b")]⟩, ⟨"I", [("age", "0"), ("loc", "b")]⟩]
+#eval compInfectiousness (exModel exDup) [("k", 7)]                    -- some [4, 1]
+#eval exDup.map (infSpec (exModel exDup) [("k", (7 : Rat))])           -- [some 2, some 2]
+end inf_examples
+
+#print axioms kron_entry
+#print axioms kron_fold_entry
+#print axioms mixingMatrix_eq
+#print axioms categories_order
+#print axioms categories_order_fold
+#print axioms categories_stratifyWith
+#print axioms categories_stratifyWith_seq
+#print axioms infectiousness
+#print axioms foi_eq_spec
+#print axioms foi_entry
+#print axioms multipliers
 end Summer.Props.C05
-#print axioms Summer.Props.C05.placeholder
